@@ -20,7 +20,13 @@ impl Prop for Ledger {
         }
     }
     fn floors() -> Vec<(&'static str, u32)> {
-        vec![("poll_with_events", 150), ("unsol_with_events", 50), ("overflow", 30), ("confirmed_after_unconfirmed_carrier", 20), ("some_event_released", 150)]
+        vec![
+            ("poll_with_events", 150),
+            ("unsol_with_events", 50),
+            ("overflow", 30),
+            ("confirmed_after_unconfirmed_carrier", 20),
+            ("some_event_released", 150),
+        ]
     }
     fn strategy(tier: Tier) -> BoxedStrategy<Case> {
         case_strategy(false, if tier == Tier::Quick { 24 } else { 48 })
